@@ -208,8 +208,8 @@ DeplUrl(c, depl) == CASE depl \in {"this", "otherKey"} -> c.url
 Minted(kind, c, depl, form, age, life, mut, slot) ==
   [src |-> "minted", kind |-> kind, alg |-> "configured",
    key |-> IF depl = "otherKey" THEN "other" ELSE "this",
-   iss |-> IF DeplUrl(c, depl) = c.url THEN "eq" ELSE "other",
-   aud |-> IF DeplUrl(c, depl) = c.url THEN "eq" ELSE "other",
+   iss |-> IF DeplUrl(c, depl) = c.url THEN "eq" ELSE IF SameDeployment(DeplUrl(c, depl), c.url) THEN "equiv" ELSE "other",
+   aud |-> IF DeplUrl(c, depl) = c.url THEN "eq" ELSE IF SameDeployment(DeplUrl(c, depl), c.url) THEN "equiv" ELSE "other",
    audform |-> form, iat |-> -age, nbf |-> -age, exp |-> life - age,
    marker |-> "true", mutation |-> mut, slot |-> slot, age |-> age, by |-> depl]
 KindForms == { <<"session", "str">>, <<"tracking", "arr">>, <<"tracking", "str">> }   \* str: jwt.MarshalSingleStringAsArray = FALSE
@@ -528,8 +528,8 @@ Why == [otherKey   |-> in.key # "this",                                   \* sig
         \* deployment whose Options.URL is not this deployment's (another origin, or a sibling that
         \* differs in path, query, trailing slash or letter case of the host) - whatever either
         \* deployment derives from its URL
-        otherAud   |-> in.aud # "eq",
-        otherIss   |-> in.iss # "eq",
+        otherAud   |-> in.aud \notin {"eq", "equiv"},      \* ("equiv": the same URL in another spelling - left open)
+        otherIss   |-> in.iss \notin {"eq", "equiv"},
         altered    |-> in.mutation \notin {"none", "sigB64Tail"}]          \* truncated or altered
 MustReject == Tok /\ \E f \in DOMAIN Why : Why[f]
 \* a token this deployment's CreateSession returned, presented unchanged in the session cookie
